@@ -456,3 +456,11 @@ extern bool opt_E;
 extern bool opt_fpic;
 extern bool opt_fcommon;
 extern char *base_file;
+
+#ifdef CHIBICC_VERIF
+//
+// verif_dump.c
+//
+
+void verif_dump_ast(Obj *prog, FILE *out);
+#endif
